@@ -230,7 +230,7 @@ def check_case(ctx, case):
                     ctx.fail(f"{rule}: get_step({idx}) returned a different round record", case, {})
                     return
     ctx.case({"cfg": cfg, "profile": spec, "seed": case.get("seed", 0), "queries": qs},
-             nontrivial=ns >= 3 and len(rounds_touched) >= 3 and neg)
+             nontrivial=ns >= 3 and len(rounds_touched) >= 3 and neg, sample=len(spec["ballots"]) < 40)
 
 
 def directed(ctx):
@@ -256,6 +256,16 @@ def run(ctx):
     if ctx.shard == 0:
         for c in directed(ctx):
             ctx.guard("directed", check_case, ctx, c)
+    if not ctx.quick and ctx.shard == 1:
+        from . import c02
+
+        c = ctx.guard("realistic_case", c02.realistic_case)
+        if c is not None:
+            c["cfg"]["tiebreak"] = None
+            c["queries"] = [["get_profile", 3], ["get_elected", -1], ["get_profile", -1], ["get_ranking", 10], ["get_status_df", -2],
+                            ["get_eliminated", 20], ["get_remaining", -5], ["get_step", 12], ["get_profile", 3], ["get_profile", 99]]
+            ctx.guard("realistic", check_case, ctx, c)
+            ctx.count("realistic_irv_minneapolis")
     maxn = 6 if ctx.quick else 7
     for i in range(ctx.n(2600, 40000)):
         if ctx.expired():
